@@ -41,7 +41,8 @@ pub fn gen_raw_code(rng: &mut Rng) -> (Vec<u8>, &'static str) {
     match rng.below(12) {
         0 => (rng.bytes_below(40), "random-short"),
         1 => {
-            let n = rng.usize(24 * 1024);
+            // (the interpreter under Miri analyses ~1 KiB per second)
+            let n = rng.usize(if cfg!(miri) { 1024 } else { 24 * 1024 });
             (rng.bytes(n), "random-long")
         }
         2 => {
@@ -56,7 +57,7 @@ pub fn gen_raw_code(rng: &mut Rng) -> (Vec<u8>, &'static str) {
             c.truncate(c.len() - cut.min(c.len()));
             (c, "all-push32(truncated)")
         }
-        3 => (vec![0x5b; rng.usize(3000)], "all-jumpdest"),
+        3 => (vec![0x5b; rng.usize(if cfg!(miri) { 200 } else { 3000 })], "all-jumpdest"),
         4 => {
             // trailing truncated PUSHn for each n
             let n = 1 + rng.below(32) as u8;
@@ -386,7 +387,7 @@ pub fn run(ctx: &Ctx) -> i32 {
     }
     let slow = matches!(ctx.lane.as_str(), "miri" | "memcheck");
     let miri = ctx.lane == "miri";
-    let n_bare = if slow { ctx.n(60, 150) } else { ctx.n(60_000, 6_000_000) };
+    let n_bare = if miri { ctx.n(14, 120) } else if slow { ctx.n(60, 150) } else { ctx.n(60_000, 6_000_000) };
     let n_evm = if miri { 0 } else if slow { ctx.n(20, 60) } else { ctx.n(30_000, 3_000_000) };
     let n_eof = if miri { 0 } else if slow { ctx.n(4, 12) } else { ctx.n(1_500, 150_000) };
     let nsh = if slow { 1 } else { 64 };
@@ -425,7 +426,7 @@ pub fn run(ctx: &Ctx) -> i32 {
         }
         for r in ["Stop", "Return", "Revert", "OutOfGas", "MemoryOOG", "InvalidJump", "StackUnderflow", "StackOverflow", "OpcodeNotFound", "InvalidFEOpcode"] {
             let have = rep.table_get("bare_results", r);
-            rep.floor(&format!("bare runs ending in {r}"), have, 5);
+            rep.floor(&format!("bare runs ending in {r}"), have, if ctx.lane == "rel" { 5 } else { 1 });
         }
     }
     super::online::keep_only(&mut rep, "C25");
@@ -482,12 +483,15 @@ fn hugegas_parent(ctx: &Ctx, rep: &mut Report) {
                     let mut restarts = 0;
                     while skip < per && restarts < 5_000 {
                         let _ = std::fs::remove_file(&out);
-                        // 1 GiB of address space per child: paid-for allocations beyond that fail at once
+                        // 1 GiB per child: paid-for allocations beyond that fail at once (address-space
+                        // limit; under AddressSanitizer, whose shadow needs terabytes of address space,
+                        // the allocator's own size cap)
+                        let limit = if ctx.lane == "asan" { "" } else { "ulimit -v 1048576; " };
                         let cmd = format!(
-                            "ulimit -v 1048576; exec {} C25 --mode hugegas --seed {} --count {} --skip {} --crumb {} --out {} --lane {} --jobs 1",
+                            "{limit}exec {} C25 --mode hugegas --seed {} --count {} --skip {} --crumb {} --out {} --lane {} --jobs 1",
                             exe.display(), seed, per, skip, crumb.display(), out.display(), ctx.lane
                         );
-                        let o = std::process::Command::new("sh").arg("-c").arg(&cmd).env("ASAN_OPTIONS", "halt_on_error=1:abort_on_error=0:detect_leaks=0:exitcode=98:allocator_may_return_null=0").output();
+                        let o = std::process::Command::new("sh").arg("-c").arg(&cmd).env("ASAN_OPTIONS", "halt_on_error=1:abort_on_error=0:detect_leaks=0:exitcode=98:allocator_may_return_null=0:max_allocation_size_mb=1024").output();
                         let Ok(o) = o else {
                             rep.inconclusive("could not spawn the huge-gas child process");
                             break;
